@@ -1296,7 +1296,11 @@ class Store:
         if isinstance(target_port, tuple):
             target_port = move['target'][0]
             extended_path = move['target'][1:]
-        target_topology = process_store.topology[target_port] + extended_path
+        target_topology = process_store.topology[target_port]
+        if isinstance(target_topology, dict):
+            # a port wired by a dictionary: the store its '_path' names
+            target_topology = target_topology.get('_path', ())
+        target_topology = tuple(target_topology) + extended_path
         target_node = process_store.outer.get_path(target_topology)
         target = target_node.add_node(source_path, source_node)
         target_path = target.path_for() + source_path[-1:]
